@@ -39,6 +39,18 @@ theorem frame_rejects_oversize_response (p : Bytes) (h : 65535 < p.length) :
     addResponseFormat p = .err .tooLong := by
   simp [addResponseFormat, h]
 
+/-- both formats at once: round trip up to the limit … -/
+theorem frame_roundtrip :
+    (∀ p : Bytes, p.length ≤ 255 → (addRequestFormat p).bind removeRequestFormat = .ok p) ∧
+    (∀ p : Bytes, p.length ≤ 65535 → (addResponseFormat p).bind removeResponseFormat = .ok p) :=
+  ⟨frame_roundtrip_request, frame_roundtrip_response⟩
+
+/-- … and an error beyond it (256 / 65536 bytes and more) -/
+theorem frame_rejects_oversize :
+    (∀ p : Bytes, 255 < p.length → addRequestFormat p = .err .tooLong) ∧
+    (∀ p : Bytes, 65535 < p.length → addResponseFormat p = .err .tooLong) :=
+  ⟨frame_rejects_oversize_request, frame_rejects_oversize_response⟩
+
 /-- the two cases are exhaustive: the encoders never fail for another reason and never panic -/
 theorem frame_accepts_iff (p : Bytes) :
     ((addRequestFormat p).isOk = true ↔ p.length ≤ 255) ∧
@@ -119,6 +131,17 @@ theorem name_rejects_long_name (n : Name) (h : 255 < nameWireLen n) : ∃ e, new
   split
   · exact ⟨_, rfl⟩
   · simp [h]
+
+/-- all three at once: whatever is outside the limits (an empty label, a 64-byte label, a 256-byte
+name) is rejected with an error -/
+theorem name_rejects (n : Name) (h : (∃ l ∈ n, l.length = 0 ∨ 63 < l.length) ∨ 255 < nameWireLen n) :
+    ∃ e, newName n = .err e := by
+  rcases h with ⟨l, hl, h0 | h64⟩ | hlen
+  · have : l = [] := List.length_eq_zero_iff.mp h0
+    subst this
+    exact name_rejects_empty_label n hl
+  · exact name_rejects_long_label n ⟨l, hl, h64⟩
+  · exact name_rejects_long_name n hlen
 
 /-- an accepted name, written into an empty message and read back, is the same name, and the reader
 stands right behind it -/
